@@ -139,3 +139,29 @@ Proof.
   { intros b [<-|[<-|[<-|[]]]]; reflexivity. }
   vm_compute. repeat split. discriminate.
 Qed.
+
+(* The lookup itself is not atomic.  Full statement (candidate): "a hit for a
+   signed package carries its signature section" (the size of which is written
+   into the image's installed database).  REFUTED even for population-only
+   builders and without any crash (finding C19-F2): cachedPackage looks for the
+   signature when only the control section is advertised and reads its absence
+   as "unsigned", then finds data and tar, advertised meanwhile. *)
+Theorem c19_lookup_not_atomic_refuted : exists origin gunzip datahash_of (bs : list builder) sched1 sched2 dir ctlh m m',
+  builders_ok origin bs /\ (forall b, In b bs -> is_reader b = false) /\
+  let s0 := init (progs origin bs) in
+  let d1 := dsk (run gunzip s0 sched1) in
+  let d2 := dsk (run gunzip s0 (sched1 ++ sched2)) in
+  read_package_seq datahash_of d1 d2 dir ctlh = Hit m /\ m_sig m = None /\
+  read_package datahash_of d2 dir ctlh = Hit m' /\ m_sig m' = Some (origin (PMember dir MSig ctlh)).
+Proof.
+  exists ex_origin, w_gunzip, (fun _ => "d"), [BPackage "p" ex_apk], (repeat 0 19), (repeat 0 30), "p", "c".
+  eexists. eexists.
+  split.
+  { intros dir a [E|[]]; inversion E; subst; repeat split; try reflexivity;
+      intros s E'; inversion E'; reflexivity. }
+  split.
+  { intros b [<-|[]]; reflexivity. }
+  cbv zeta. split; [vm_compute; reflexivity|]. split; [reflexivity|].
+  split; [vm_compute; reflexivity|]. reflexivity.
+Qed.
+Print Assumptions c19_lookup_not_atomic_refuted.
